@@ -354,7 +354,7 @@ class C20(Prop):
                ({'explicit': None, 'env': '-1.5'}, 0), ({'explicit': {'int': 0}}, 1), ({'explicit': {'int': 0}}, 0)]
         if not quick:
             big += [({'explicit': None, 'env': '1.9'}, 3 * MB), ({'explicit': {'int': 2}}, 2 * MB + 1),
-                    ({'explicit': {'float': ['3', '2']}}, 3 * MB // 2 + 1), ({'explicit': None, 'env': None}, 500 * MB + 1)]
+                    ({'explicit': {'float': ['3', '2']}}, 3 * MB // 2 + 1), ({'explicit': None, 'env': '20'}, 20 * MB + 1)]
         for lim, size in big:
             cases.append(self.mk_trip(rng, {'zeros': size} if size > 4096 else {'hex': self.rand_content(rng, size).hex()}, lim,
                                       out={'hex': '00'}))
@@ -372,6 +372,9 @@ class C20(Prop):
             lim = rng.choice([{'explicit': None, 'env': None}, {'explicit': {'int': 1}}, {'explicit': None, 'env': '2.5'}])
             cases.append(self.mk_trip(rng, {'hex': rng.randbytes(size).hex()}, lim, out={'hex': rng.randbytes(size // 2 + 1).hex()},
                                       cassette=rng.choice(['mem', 'file', 's3'])))
+        # 4c. files of more than a MB that are still within the limit (chunked readers / encoders)
+        for size, lim in [(MB + 1, {'explicit': {'int': 3}}), (MB + 4099, {"explicit": None, "env": None})][:1 if quick else 2]:
+            cases.append(self.mk_trip(rng, {'zeros': size}, lim, out={'hex': '00'}, cassette=rng.choice(['mem', 'file'])))
         # 5. calls that do not name a usable path
         for _ in range(6 if quick else 60):
             lim, nb = self.rand_limit(rng)
